@@ -272,3 +272,20 @@ def gen_http_messages():
             b"A B C D\r\n\r\n", b"  GET   /x   HTTP/1.1  \r\nX: 1\r\n\r\n", b"HTTP/1.1 200 OK\r\nNoColon\r\n\r\nB",
             b"HTTP/1.1 200 OK\r\nDup: 1\r\nDup: 2\r\n\r\n", b"GET / HTTP/1.1\r\n\r\n\r\n\r\n"]
     return [{"bytes": list(m)} for m in msgs]
+
+
+def tlv_block(settings, terminator=True, trailing=b""):
+    out = b""
+    for idx, ty, val in settings:
+        out += idx.to_bytes(2, "big") + ty.to_bytes(2, "big") + len(val).to_bytes(2, "big") + val
+    return out + (b"\x00\x00" if terminator else b"") + trailing
+
+
+def gen_config_blocks():
+    blocks = [b"", b"\x00", b"\x00\x00", tlv_block([(1, 1, b"\x00\x08")]), tlv_block([(1, 1, b"\x00\x08"), (2, 1, b"\x01\xbb")], trailing=b"\xff" * 5),
+              tlv_block([(1, 1, b"\x00\x08")], terminator=False), tlv_block([(1, 1, b"\x00\x08")], terminator=False) + b"\x00\x02\x00",
+              tlv_block([(9, 3, b"A" * 128)], terminator=False), tlv_block([(9, 3, b"A" * 128)], terminator=False) + b"BCD\x00\x00\x00",
+              tlv_block([(9, 3, b"A" * 127 + b"\x00")]), tlv_block([(36, 1, b"\x00\x01"), (36, 3, b"hash\x00")]),
+              tlv_block([(0xfff0, 7, b""), (16, 2, b"\x00\x00\x00\x01"), (7, 3, bytes(range(40)))]),
+              tlv_block([(1, 1, b"\x00\x08")])[:-3], b"\x00\x01\x00\x01\xff\xff" + b"x" * 10, b"\x01"]
+    return [{"bytes": list(b)} for b in blocks]
